@@ -32,6 +32,11 @@ fn arch(req: &Value) -> R<Value> {
             falcon::analysis::calling_convention::ArgumentType::Stack(o) => json!(["stack", o]),
         });
     }
+    let mut queries = Vec::new();
+    for s in cc.preserved_registers().iter().chain(cc.trashed_registers().iter()) {
+        queries.push(json!([emit::scalar(s), cc.is_preserved(s), cc.is_trashed(s)]));
+    }
+    queries.sort_by_key(|x| x.to_string());
     Ok(json!({
         "ok": true,
         "name": a.name(),
@@ -47,6 +52,7 @@ fn arch(req: &Value) -> R<Value> {
             "return_register": emit::scalar(cc.return_register()),
             "argument_types": argtypes,
             "sp_preserved": cc.is_preserved(&a.stack_pointer()),
+            "queries": queries,
         }
     }))
 }
